@@ -21,7 +21,7 @@ import (
 // ---------- C10: built messages are well-formed FIX whatever API calls produced them ----------
 
 type c10Op struct {
-	K   string `json:"k"` // set int bool remove clear group copy copyparsed build
+	K   string `json:"k"` // set int bool remove clear group copy copyparsed copybuilt build
 	Sec int    `json:"sec"`
 	Tag int    `json:"tag,omitempty"`
 	Val string `json:"val,omitempty"`
@@ -378,6 +378,22 @@ func c10Run(prog []c10Op) (rule, what string) {
 					msg = fresh
 				}
 				mod = mod.clone()
+			case "copybuilt":
+				// the destination has been serialised before, the source is not serialised again before the copy
+				dst := quickfix.NewMessage()
+				dst.Header.SetString(8, "FIX.4.2").SetString(35, "0").SetString(49, "OLD")
+				dst.Trailer.SetString(93, "1").SetString(89, "x")
+				_ = quickfix.VerifBuild(dst)
+				msg.CopyInto(dst)
+				got := quickfix.VerifBuild(dst)
+				src := quickfix.VerifBuild(msg)
+				if !bytes.Equal(got, src) {
+					rule, what = "C10/C-copy-builds-differently kind="+o.K, fmt.Sprintf("source %s, copy %s", fixscan.Pretty(src), fixscan.Pretty(got))
+					return
+				}
+				sources = append(sources, kept{msg, src})
+				msg = dst
+				mod = mod.clone()
 			default:
 				c10Apply(msg, mod, o)
 			}
@@ -420,7 +436,7 @@ func c10Alphabet(reduced bool) []c10Op {
 	for _, n := range []int{0, 1, 2} {
 		a = append(a, c10Op{K: "group", Sec: 1, Tag: groupTag, N: n})
 	}
-	a = append(a, c10Op{K: "copy"}, c10Op{K: "copyparsed"}, c10Op{K: "build"})
+	a = append(a, c10Op{K: "copy"}, c10Op{K: "copyparsed"}, c10Op{K: "copybuilt"}, c10Op{K: "build"})
 	return a
 }
 
@@ -451,7 +467,7 @@ func runC10(c *core.Ctx) {
 	if !quick {
 		plans = []plan{{false, 4}, {true, 6}}
 	}
-	c.SetRule("all programs of field-map operations up to depth d over (section x tag x {4 setter APIs, SetInt, SetBool, Remove}, Clear, SetGroup with 0/1/2 entries incl. a nested group, overwriting a group by a scalar, hand-set BodyLength/CheckSum, CopyInto a fresh or a previously parsed message and continue, build-now); field-map reference model + independent byte scanner; quick: full alphabet depth 3 and reduced alphabet depth 5; thorough: depth 4 and 6")
+	c.SetRule("all programs of field-map operations up to depth d over (section x tag x {4 setter APIs, SetInt, SetBool, Remove}, Clear, SetGroup with 0/1/2 entries incl. a nested group, overwriting a group by a scalar, hand-set BodyLength/CheckSum, CopyInto a fresh, a previously parsed or a previously serialised message and continue, build-now); field-map reference model + independent byte scanner; quick: full alphabet depth 3 and reduced alphabet depth 5; thorough: depth 4 and 6")
 	c.Assume("tags are used in their proper section; values SOH-free (incl. the empty value, for which only serialisation is judged, not parse-back)",
 		"field order inside a section is not prescribed by the statement except 8,9,35 first and 10 last")
 	var evals int64
